@@ -765,6 +765,11 @@ func (fr *Frame) atCallAsserts(key string, cc *ssa.CallCommon, st *State, pos to
 			vc.unsupportedf("at call %s: %v", at.Callee, err)
 			continue
 		}
+		if at.Assume {
+			vc.assumeIf(fr.curReach, g)
+			vc.note("assumed at the call of %s in %s: %s", at.Callee, vc.name, at.Clause.Text)
+			continue
+		}
 		vc.oblige("assert", fr.tagsFor(at.Clause.Tags), fr.curReach, g, fmt.Sprintf("at call %s: %s", at.Callee, at.Clause.Text), pos, at.Clause)
 	}
 }
